@@ -67,6 +67,17 @@ Words ==
              "eerste", "tweede", "derde", "twintigste", "eenentwintig", "tweehonderd", "drieënvijftig",
              "plus", "is", "dan", "katten", "de", "huis", "biljoen", "miljoenen", "miljarden">> ]
 
+\* core alphabet for exhaustive short texts (C09): two small numbers, an ambiguous / zero word, a linking word, an ordinary
+\* word, a small ordinal, a number that is never "small", the conjunction
+CoreWords ==
+  [ en |-> <<"one", "two", "o", "uh", "apples", "first", "twenty", "and">>,
+    fr |-> <<"un", "deux", "neuf", "alors", "chats", "premier", "vingt", "et">>,
+    es |-> <<"uno", "dos", "cero", "mas", "gatos", "primero", "veinte", "y">>,
+    pt |-> <<"um", "dois", "zero", "mais", "gatos", "primeiro", "vinte", "e">>,
+    it |-> <<"uno", "due", "zero", "poi", "gatti", "primo", "venti", "e">>,
+    de |-> <<"eins", "zwei", "null", "also", "katzen", "erste", "zwanzig", "und">>,
+    nl |-> <<"een", "twee", "nul", "dan", "katten", "eerste", "twintig", "en">> ]
+
 \* separators between words of a generated text
 Seps == <<" ", ", ", ". ", "-", "; ", " - ", "  ", "! ", "- ", " -", "' ", "-, ", ",", ":">>
 \* a strong separator (C10): >= 3 ordinary (non-number, non-linking) words ending a sentence
